@@ -29,6 +29,9 @@ UNITS = ("MOD", "PROG", "ESUB", "EFUN", "SMOD")
 CONSTRUCTS = ("BLOCK", "DO", "NDO", "LDO", "IF", "SELC", "SELT", "ASSOC", "WHERE")
 
 
+NESTABLE = ("BLOCK", "DO", "NDO", "LDO", "IF", "ASSOC")
+
+
 def gen_constructs(budget, depth):
     """Sequences of executable constructs using exactly `budget` nodes."""
     if budget == 0:
@@ -44,7 +47,7 @@ def gen_construct(c, depth):
     for k in CONSTRUCTS:
         if c == 1:
             yield (k, ())
-        elif depth > 1 and k in ("BLOCK", "DO", "IF", "ASSOC"):
+        elif depth > 1 and k in NESTABLE:
             for inner in gen_constructs(c - 1, depth - 1):
                 yield (k, inner)
 
@@ -188,9 +191,11 @@ def render_constructs(r: R, depth, nodes):
                 r.end(depth, "do", None, need_kw=True)
         elif kind == "LDO":
             r.label += 10
-            r.add(depth, f"do {r.label} i = 1, 3")
+            lab = r.label
+            r.add(depth, f"do {lab} i = 1, 3")
             r.add(depth + 1, "k = k + i")
-            r.lines.append(f"{r.label} continue")
+            render_constructs(r, depth + 1, ch)
+            r.lines.append(f"{lab} continue")
         elif kind == "IF":
             r.add(depth, "if (k > 0) then")
             r.add(depth + 1, "k = 1")
@@ -533,6 +538,18 @@ def _is_program_member(r, n):
     return True  # members of programs (variables, internal procedures, named blocks) are tolerated, never required
 
 
+def nesting_pairs():
+    """Every nestable construct around every construct, inside the first of two sibling module procedures (what
+    follows a construct that is closed wrongly shows in the sibling), in all renderings."""
+    for outer in NESTABLE:
+        for inner in CONSTRUCTS:
+            for third in ((), (("DO", ()),)):
+                units = (("MOD", (("SUB", ((outer, ((inner, ()),) + third),)), ("FUN", ()))),)
+                for ef in range(END_FORMS):
+                    for sp in range(SPACINGS):
+                        yield (units, ef, sp)
+
+
 def jobs(budget):
     """Trees up to `budget` nodes in all 15 renderings; trees of budget+1 nodes in one
     rendering each (rotating through the 15, so every rendering meets every tree shape class)."""
@@ -558,6 +575,9 @@ def main(ctx):
                        "bodies, named constructs) are ignored"]
     acc = core.pmap(check_file, jobs(budget), chunk=16, budget_s=120, label="C04")
     ctx.add_family("outline+workspace_symbol", acc, node_budget=budget)
+    nacc = core.pmap(check_file, nesting_pairs(), chunk=16, budget_s=120, label="C04/nesting")
+    ctx.add_family("nesting_pairs", nacc, what="6 nestable constructs (BLOCK, DO, named DO, label-terminated DO, IF, ASSOCIATE) around each of the 9 "
+                   "constructs (optionally followed by a plain DO), in the first of two sibling module procedures, 15 renderings")
     sacc = core.pmap(collision_case, sorted(_collision_programs()), chunk=1, budget_s=60, label="C04/same_names")
     ctx.add_family("same_names", sacc, what="distinct entities of one file that legally share a name (constructor idiom, generic named "
                    "like its specific, same members in two modules, same component in two types, module procedure and internal procedure)")
